@@ -125,8 +125,9 @@ class Bundle:
         return sum(len(t) for t in self.files.values())
 
 
-def run_harness(hbin, bundle_path, out_path, workdir, threads=16, batch=24, timeout=3000):
-    rc, out = run([hbin, "run", bundle_path, out_path, workdir, str(threads), str(batch)], timeout=timeout)
+def run_harness(hbin, bundle_path, out_path, workdir, threads=16, batch=24, timeout=3000, standard=None):
+    rc, out = run([hbin, "run", bundle_path, out_path, workdir, str(threads), str(batch)] + ([standard] if standard else []),
+                  timeout=timeout)
     if rc != 0:
         return None, out
     res = {}
@@ -224,8 +225,14 @@ def describe_diag(d):
 
 
 def check_libs(res, hbin, d):
+    # the bundled libraries are VHDL-2008 sources: analysed under the default, 2008 and 2019
+    for standard in (None, "2008", "2019"):
+        check_libs_under(res, hbin, d, standard)
+
+
+def check_libs_under(res, hbin, d, standard):
     out = os.path.join(d, "libs.out")
-    rc, log = run([hbin, "libs", out], timeout=600)
+    rc, log = run([hbin, "libs", out] + ([standard] if standard else []), timeout=600)
     if rc != 0:
         res.violation("harness c05 libs crashed", {"kind": "harness", "log": log[-2000:]}, no_failing_input=True)
         return
@@ -233,11 +240,11 @@ def check_libs(res, hbin, d):
     errs = errors_of(o)
     res.coverage["bundled_library_files"] = o.get("nfiles")
     res.coverage["bundled_library_diagnostics"] = dict(Counter("%s/%s" % (x["sev"], x["code"]) for x in o["diags"]))
-    res.count_case("bundled libraries std+ieee (%s files)" % o.get("nfiles"), True)
+    res.count_case("bundled libraries std+ieee (%s files) standard %s" % (o.get("nfiles"), standard), True)
     if o["panic"]:
-        res.violation("analysis of the bundled libraries panics", {"kind": "input", "input": "/repo/vhdl_libraries"})
+        res.violation("analysis of the bundled libraries panics (standard %s)" % standard, {"kind": "input", "input": "/repo/vhdl_libraries"})
     for e in errs[:3]:
-        res.violation("error diagnostic in a bundled library: " + describe_diag(e),
+        res.violation("error diagnostic in a bundled library (standard %s): " % (standard or "default") + describe_diag(e),
                       {"kind": "input", "input": "/repo/vhdl_libraries", "diagnostic": e})
 
 
@@ -492,11 +499,98 @@ end architecture;
     return lib, [("v_pkg.vhd", pkg), ("v_sub.vhd", subent), ("v_user.vhd", "\n".join(user) + "\n")]
 
 
+def template_program4(k, r, standard="2008"):
+    """the matrix predefined attribute x type class (LRM 16.2): every predefined attribute of types, arrays, objects,
+    signals and named entities applied to every class of prefix it is defined for"""
+    lib = "wl%d" % k
+    pk, ent = "apk%d" % k, "aent%d" % k
+    v08 = standard != "1993"
+    pkg = """package %s is
+  type color_t is (red, green, blue);
+  subtype warm_t is color_t range red to green;
+  type small_t is range -8 to 7;
+  subtype pos_small_t is small_t range 1 to 7;
+  type resistance_t is range 0 to 1000000
+    units
+      ohm;
+      kohm = 1000 ohm;
+    end units;
+  type volt_t is range -10.0 to 10.0;
+  type vec_t is array (natural range <>) of bit;
+  subtype byte_t is vec_t(7 downto 0);
+  type mat_t is array (0 to 2, 1 to 4) of integer;
+  type cvec_t is array (color_t) of integer;
+end package;
+""" % pk
+    L = ["library %s;" % lib, "use %s.%s.all;" % (lib, pk), "entity %s is" % ent, "  port (clk : in bit; q : out bit);", "end entity;",
+         "architecture a of %s is" % ent]
+    n = [0]
+
+    def c(ty, expr):
+        n[0] += 1
+        L.append("  constant k%d : %s := %s;" % (n[0], ty, expr))
+
+    lit = {"color_t": ("green", '"blue"'), "warm_t": ("red", '"green"'), "small_t": ("3", '"5"'), "pos_small_t": ("2", '"4"'),
+           "integer": ("7", '"42"'), "natural": ("7", '"42"'), "resistance_t": ("99 ohm", '"3 kohm"'), "time": ("5 ns", '"2 ns"'),
+           "delay_length": ("5 ns", '"2 ns"'), "volt_t": ("1.5", '"2.5"'), "real": ("1.5", '"2.5"'), "boolean": ("true", '"false"'),
+           "bit": ("'1'", "\"'0'\""), "character": ("'x'", "\"'y'\"")}
+    base_of = {"warm_t": "color_t", "pos_small_t": "small_t", "natural": "integer", "delay_length": "time"}
+    for ty, (val, img) in lit.items():
+        b = base_of.get(ty, ty)
+        for a in ("left", "right", "high", "low"):
+            c(b, "%s'%s" % (ty, a))
+        c("boolean", "%s'ascending" % ty)
+        c("string", "%s'image(%s)" % (ty, val))
+        c(b, "%s'value(%s)" % (ty, img))
+        # (T'base'left ... is valid VHDL but the analyser has no 'base attribute at all: "Unknown attribute 'base"; reported
+        #  to the coordinator as an observation, not exercised here)
+        if ty not in ("volt_t", "real"):
+            # discrete and PHYSICAL types
+            c("integer", "%s'pos(%s)" % (ty, val))
+            c(b, "%s'val(%d)" % (ty, 1 if b in ("color_t", "boolean", "bit") else 25 if b == "character" else 3))
+            for a in ("succ", "pred", "leftof", "rightof"):
+                c(b, "%s'%s(%s)" % (ty, a, val))
+    # arrays: type marks and objects, with and without the dimension argument
+    L += ["  constant bv : byte_t := (others => '0');", "  constant vv : vec_t(3 to 9) := (others => '1');",
+          "  constant mm : mat_t := (others => (others => 0));", "  constant cv : cvec_t := (others => 1);"]
+    for pre, idx in (("byte_t", "integer"), ("bv", "integer"), ("vv", "integer"), ("cvec_t", "color_t"), ("cv", "color_t")):
+        for a in ("left", "right", "high", "low"):
+            c(idx, "%s'%s" % (pre, a))
+            c(idx, "%s'%s(1)" % (pre, a))
+        c("integer", "%s'length" % pre)
+        c("boolean", "%s'ascending" % pre)
+    for pre in ("mat_t", "mm"):
+        for d in (1, 2):
+            for a in ("left", "right", "high", "low"):
+                c("integer", "%s'%s(%d)" % (pre, a, d))
+            c("integer", "%s'length(%d)" % (pre, d))
+            c("boolean", "%s'ascending(%d)" % (pre, d))
+    L += ["  signal s : bit;", "  signal t : integer := 0;"]
+    # named entities
+    for a in ("simple_name", "instance_name", "path_name"):
+        c("string", "k1'%s" % a)
+        c("string", "s'%s" % a)
+    if v08:
+        L += ["  subtype el_t is byte_t'element;", "  signal like_bv : bv'subtype;"]
+    L += ["begin", "  pr : process (clk)", "    variable acc : integer := 0;", "    variable b : boolean;", "    variable tm : time;", "    variable lv : bit;"]
+    L += ["  begin",
+          "    for i in byte_t'range loop acc := acc + i; end loop;", "    for i in bv'reverse_range loop acc := acc + i; end loop;",
+          "    for i in vv'range(1) loop acc := acc + i; end loop;", "    for i in mat_t'range(2) loop acc := acc + i; end loop;",
+          "    for i in mm'reverse_range(1) loop acc := acc + mm(i, 1); end loop;", "    for c in cvec_t'range loop acc := acc + cv(c); end loop;",
+          "    for c in color_t'range loop acc := acc + color_t'pos(c); end loop;" if False else "    for c in color_t loop acc := acc + color_t'pos(c); end loop;",
+          "    b := clk'event and clk = '1';", "    b := clk'active;", "    b := clk'stable;", "    b := clk'stable(1 ns);",
+          "    b := clk'quiet;", "    b := clk'quiet(2 ns);", "    lv := clk'delayed(1 ns);", "    lv := clk'delayed;", "    lv := clk'transaction;",
+          "    tm := clk'last_event;", "    tm := clk'last_active;", "    lv := clk'last_value;", "    acc := t'last_value;",
+          "    q <= clk;", "    b := q'driving;", "    lv := q'driving_value;",
+          "  end process;", "  s <= clk'delayed(2 ns);", "  t <= t'delayed(1 ns) + 1 when clk'event else t;", "end architecture;"]
+    return lib, [("w_pkg.vhd", pkg), ("w_user.vhd", "\n".join(L) + "\n")]
+
+
 def template_bundle(seed_, n, path, mode="w", first=0):
     r = random.Random(seed_ * 31 + 5)
     with open(path, mode) as f:
         for k in range(first, first + n):
-            lib, files = (template_program, template_program2, template_program3)[k % 3](k, r)
+            lib, files = (template_program, template_program2, template_program3, template_program4)[k % 4](k, r)
             f.write("P t%d\n" % k)
             for name, text in files:
                 lines = text.split("\n")
@@ -521,26 +615,49 @@ def check_templates(res, hbin, d, tier):
                 template_bundle(int(f[0]), int(f[1]), path, mode="a", first=first)
                 first += int(f[1])
     n = first
-    hr, log = run_harness(hbin, path, os.path.join(d, "templates.out"), os.path.join(d, "wd_t"), threads=8, batch=20)
-    if hr is None:
-        res.violation("harness c05 run crashed on the template stream", {"kind": "harness", "log": log[-2000:]}, no_failing_input=True)
-        return
-    impl, _ = hr
-    b = Bundle(path)
-    bad = 0
-    for pid in b.order:
-        o = impl.get(pid)
-        res.count_case("template|%s|%d" % (pid, sum(len(t) for t in b.by_pid[pid].values())), True)
-        if o is None or o["panic"] or errors_of(o):
-            bad += 1
-            if bad <= 3:
-                what = ("Project::analyse panics" if (o and o["panic"]) else
-                        "error diagnostic: " + describe_diag(errors_of(o)[0]) if o else "no result")
-                res.violation("template program (generic packages / explicit operator overloads + alias / arrays of subtypes; valid by inspection; exploration only, outside the theorems): " + what,
-                              {"kind": "input", "template": pid, "seed": seed(), "files": b.text_of(pid),
-                               "diagnostics": [describe_diag(x) for x in (errors_of(o) if o else [])][:10]})
-    res.coverage["template_programs"] = n
-    for fn in ("templates.bundle", "templates.out"):
+    # the attribute matrix restricted to VHDL-1993 constructs, for the run under standard = "1993"
+    path93 = os.path.join(d, "templates93.bundle")
+    r93 = random.Random(seed() * 17 + 3)
+    n93 = 3 if tier == "quick" else 30
+    with open(path93, "w") as f:
+        for k in range(n93):
+            lib, files = template_program4(9000 + k, r93, standard="1993")
+            f.write("P t93_%d\n" % k)
+            for name, text in files:
+                lines = text.split("\n")
+                if lines and lines[-1] == "":
+                    lines = lines[:-1]
+                f.write("F %s %s_%s %d\n" % (lib, lib, name, len(lines)))
+                for l in lines:
+                    f.write(l + "\n")
+    total = 0
+    # every standard the configuration supports (the implementation's default is 2008)
+    for standard, bpath in ((None, path), ("2019", path), ("1993", path93)):
+        hr, log = run_harness(hbin, bpath, os.path.join(d, "templates.out"), os.path.join(d, "wd_t"), threads=8, batch=20,
+                              standard=standard)
+        if hr is None:
+            res.violation("harness c05 run crashed on the template stream", {"kind": "harness", "log": log[-2000:]}, no_failing_input=True)
+            return
+        impl, _ = hr
+        b = Bundle(bpath)
+        bad = 0
+        for pid in b.order:
+            o = impl.get(pid)
+            total += 1
+            res.count_case("template|%s|%s|%d" % (standard, pid, sum(len(t) for t in b.by_pid[pid].values())), True)
+            if o is None or o["panic"] or errors_of(o):
+                bad += 1
+                if bad <= 3:
+                    what = ("Project::analyse panics" if (o and o["panic"]) else
+                            "error diagnostic: " + describe_diag(errors_of(o)[0]) if o else "no result")
+                    res.violation("template program under standard %s (generic packages / explicit operator overloads + alias / "
+                                  "arrays of subtypes / individual association, generates / attribute matrix; valid by inspection; "
+                                  "exploration only, outside the theorems): " % (standard or "default") + what,
+                                  {"kind": "input", "template": pid, "standard": standard, "seed": seed(), "files": b.text_of(pid),
+                                   "diagnostics": [describe_diag(x) for x in (errors_of(o) if o else [])][:10]})
+    res.coverage["template_programs"] = total
+    res.coverage["standards"] = ["default(2008)", "2019", "1993 (attribute templates only)"]
+    for fn in ("templates.bundle", "templates93.bundle", "templates.out"):
         try:
             os.remove(os.path.join(d, fn))
         except OSError:
@@ -652,6 +769,40 @@ def main(tier, replay=None):
                               "validity of %s (%s)" % (pid, problem), dict(rp, kind="correspondence",
                                                                          correspondence="extracted Gen/Sem vs vm_compute",
                                                                          log=clog[-1500:]), no_failing_input=True)
+    # the same programs under the other standard that accepts the fragment (VHDL-2019; the fragment uses VHDL-2008
+    # constructs — contexts, generic packages, use of a type importing its literals — so it is not run under 1993)
+    if not replay:
+        npr = 240 if tier == "quick" else 3000
+        sub = os.path.join(d, "bundle2019.txt")
+        cnt = 0
+        with open(bundle_path) as fi, open(sub, "w") as fo:
+            for line in fi:
+                if line.startswith("P "):
+                    cnt += 1
+                    if cnt > npr:
+                        break
+                fo.write(line)
+        hr2, log2 = run_harness(hbin, sub, os.path.join(d, "impl2019.out"), os.path.join(d, "wd19"), standard="2019")
+        if hr2 is None:
+            res.violation("harness c05 run crashed under standard 2019", {"kind": "harness", "log": log2[-2000:]}, no_failing_input=True)
+        else:
+            bad19 = 0
+            for pid, o in sorted(hr2[0].items()):
+                res.count_case("2019|" + pid, True)
+                if o["panic"] or errors_of(o):
+                    bad19 += 1
+                    if bad19 <= 3:
+                        basepid = pid.rsplit(".", 1)[0]
+                        res.violation("under `standard = \"2019\"`: error diagnostic on a program the reference calls Valid (accepted under "
+                                      "2008): %s  [program %s]" % (describe_diag(errors_of(o)[0]) if errors_of(o) else "panic", pid),
+                                      {"kind": "input", "request": req_of.get(basepid), "pid": pid, "standard": "2019",
+                                       "files": b.text_of(pid), "diagnostics": [describe_diag(x) for x in errors_of(o)][:10]})
+            res.coverage["programs_under_2019"] = len(hr2[0])
+        for fn in ("bundle2019.txt", "impl2019.out"):
+            try:
+                os.remove(os.path.join(d, fn))
+            except OSError:
+                pass
     for kid, cnt in sorted(known_hits.items()):
         e = [x for x in known_findings(PROP) if x["id"] == kid][0]
         res.known_finding("%s (%s; %d diagnostics in this run)" % (e.get("open", kid), kid, cnt))
